@@ -439,45 +439,80 @@ ext_parse!(c14_ext_end_8, 0, 8);
 // @stub alloc::fmt::format -> String::new()
 ext_parse!(c14_ext_backing_format_4, 0xe2792aca, 4);
 
-// @harness c15_header_roundtrip
+// @harness c15_header_serialize
 // @props C15 C16
-// @tier thorough
+// @tier quick
 // @cost 120
-// @timeout 900
+// @timeout 1200
 // @cbmc --max-field-sensitivity-array-size 256
-// @desc a header parsed from bytes (no extension, no backing name) re-serialises with serialize_to_buf to bytes that parse to identical numeric fields; the serialised length is header_length (a multiple of 8) plus the 8-byte END extension
-// @bounds numeric fields symbolic within what from_buf accepts; incompatible_features 0; no extensions
-// @funcs Qcow2Header::from_buf Qcow2Header::serialize_to_buf Qcow2RawHeader::serialize_vec Qcow2Header::serialize_extensions
+// @desc a header with arbitrary numeric fields and no extensions is serialised by serialize_to_buf to exactly 120 bytes (112-byte header, a multiple of 8, plus the END extension) and EVERY byte equals the specification's layout (big-endian fields at the spec's offsets, header_length 112, zero padding, END marker) -- the same layout whose parsing c14_header_fields decides, so parse(serialize(h)) == h follows for these headers
+// @bounds cluster_bits 9..=21, refcount_order 0..=6, size, l1_size, table offsets (aligned), refcount_table_clusters (1..=8 MiB), snapshot fields, compatible/autoclear bits: symbolic; no extensions, no backing name
+// @funcs Qcow2Header::serialize_to_buf Qcow2RawHeader::serialize_vec Qcow2Header::serialize_extensions
 // @stub alloc::fmt::format -> String::new()
 #[kani::proof]
-#[kani::unwind(4)]
+#[kani::unwind(10)]
 #[kani::stub(alloc::fmt::format, fmt_stub)]
-fn c15_header_roundtrip() {
-    let mut f = any_fields();
-    f.version = 3;
-    let mut buf = [0u8; 120];
-    emit(&mut buf, &f);
-    let r = Qcow2Header::from_buf(&buf);
-    if let Ok(mut h) = r {
-        let out = h.serialize_to_buf();
-        assert!(out.is_ok());
-        if let Ok(bytes) = &out {
-            assert!(bytes.len() == 120);
-            let mut again = [0u8; 120];
-            let mut k = 0;
-            while k < 120 {
-                again[k] = bytes[k];
-                k += 1;
-            }
-            // every numeric field survives bit for bit (the first 105 bytes are the fields)
-            let i: usize = kani::any();
-            kani::assume(i < 105);
-            assert!(again[i] == buf[i]);
-            kani::cover!(true);
-        }
-        core::mem::forget(out);
-        core::mem::forget(h);
+fn c15_header_serialize() {
+    let f = any_fields();
+    kani::assume(f.cluster_bits >= 9 && f.cluster_bits <= 21 && f.refcount_order <= 6);
+    let cs = 1u64 << f.cluster_bits;
+    kani::assume(f.l1_table_offset & (cs - 1) == 0 && f.refcount_table_offset & (cs - 1) == 0);
+    kani::assume(f.refcount_table_clusters >= 1 && (f.refcount_table_clusters as u64) << f.cluster_bits <= 8 << 20);
+    let mut h = Qcow2Header {
+        raw: Qcow2RawHeader {
+            magic: Qcow2Header::QCOW2_MAGIC,
+            version: 3,
+            backing_file_offset: 0,
+            backing_file_size: 0,
+            cluster_bits: f.cluster_bits,
+            size: f.size,
+            crypt_method: 0,
+            l1_size: f.l1_size,
+            l1_table_offset: f.l1_table_offset,
+            refcount_table_offset: f.refcount_table_offset,
+            refcount_table_clusters: f.refcount_table_clusters,
+            nb_snapshots: f.nb_snapshots,
+            snapshots_offset: f.snapshots_offset,
+            incompatible_features: 0,
+            compatible_features: f.compatible,
+            autoclear_features: f.autoclear,
+            refcount_order: f.refcount_order,
+            header_length: 0,
+            compression_type: 0,
+        },
+        backing_filename: None,
+        extensions: Vec::new(),
+    };
+    let out = h.serialize_to_buf();
+    assert!(out.is_ok());
+    if let Ok(bytes) = &out {
+        assert!(bytes.len() == 120);
+        // the specification's layout, built independently
+        let mut g = any_fields();
+        g.version = 3;
+        g.cluster_bits = f.cluster_bits;
+        g.size = f.size;
+        g.crypt_method = 0;
+        g.l1_size = f.l1_size;
+        g.l1_table_offset = f.l1_table_offset;
+        g.refcount_table_offset = f.refcount_table_offset;
+        g.refcount_table_clusters = f.refcount_table_clusters;
+        g.nb_snapshots = f.nb_snapshots;
+        g.snapshots_offset = f.snapshots_offset;
+        g.compatible = f.compatible;
+        g.autoclear = f.autoclear;
+        g.refcount_order = f.refcount_order;
+        g.compression_type = 0;
+        let mut expect = [0u8; 120];
+        emit(&mut expect, &g);
+        let i: usize = kani::any();
+        kani::assume(i < 120);
+        assert!(bytes[i] == expect[i]);
+        kani::cover!(i == 119);
+        kani::cover!(i == 24);
     }
+    core::mem::forget(out);
+    core::mem::forget(h);
 }
 
 macro_rules! ext_walk {
